@@ -67,7 +67,7 @@ def mutate(rng, t, quick_violations):
                 ents[nm] = mutate(rng, x, quick_violations)
         for nm in range(len(NAMES)):
             if nm not in t[2] and rng.random() < 0.12:
-                ents[nm] = rng.choice([gen_file(rng), gen_tree(rng, 2)])   # unrelated extra entry
+                ents[nm] = rng.choice([gen_file(rng), gen_tree(rng, 2), gen_link(rng), ("l", "absout", 1)])   # unrelated extra entry (also a link to a directory)
         return ("d", rng.choice([t[1], t[1], rng.choice(DMODES)]), ents)
     if t[0] == "f":
         c, m, mt = t[1], t[2], t[3]
